@@ -1517,24 +1517,31 @@ func (c *Conn) ApiVersions() ([]ApiVersion, error) {
 	defer lock.Unlock()
 	defer verifTrace("conn.done", c, id, nil) // runs before lock.Unlock()
 
+	// When the response cannot be read completely the connection is left in
+	// the middle of a frame, it must not be used again.
+	fail := func(err error) ([]ApiVersion, error) {
+		c.conn.Close()
+		return nil, err
+	}
+
 	var errorCode int16
 	if size, err = readInt16(&c.rbuf, size, &errorCode); err != nil {
-		return nil, err
+		return fail(err)
 	}
 	var arrSize int32
 	if size, err = readInt32(&c.rbuf, size, &arrSize); err != nil {
-		return nil, err
+		return fail(err)
 	}
 	r := make([]ApiVersion, arrSize)
 	for i := 0; i < int(arrSize); i++ {
 		if size, err = readInt16(&c.rbuf, size, &r[i].ApiKey); err != nil {
-			return nil, err
+			return fail(err)
 		}
 		if size, err = readInt16(&c.rbuf, size, &r[i].MinVersion); err != nil {
-			return nil, err
+			return fail(err)
 		}
 		if size, err = readInt16(&c.rbuf, size, &r[i].MaxVersion); err != nil {
-			return nil, err
+			return fail(err)
 		}
 	}
 
